@@ -481,6 +481,8 @@ def _demean_nw(
         _GROUP_MEAN.format(col): nw.col(col).mean()
         for col in cols
     })
+    # An unrelated input column may happen to have the name of a joined column.
+    data = data.drop([_GROUP_MEAN.format(col) for col in cols], strict=False)
     return data.join(group_means, on=group_col, how="left").with_columns(**{
         _DEMEAN.format(col): nw.col(col) - nw.col(_GROUP_MEAN.format(col))
         for col in cols
